@@ -2,6 +2,7 @@ package main
 
 import (
 	"go/ast"
+	"go/token"
 )
 
 type (
@@ -39,4 +40,41 @@ func enclosingFuncName(stack []ast.Node) string {
 		}
 	}
 	return "<file>"
+}
+
+// varNameAt: the name of the variable defined/assigned by the statement containing pos (":=" / "var x =").
+func (p *Program) varNameAt(pkgPath string, pos token.Pos) string {
+	pk := p.ByPath[pkgPath]
+	if pk == nil || !pos.IsValid() {
+		return ""
+	}
+	name := ""
+	for _, f := range pk.Syntax {
+		if pos < f.Pos() || pos > f.End() {
+			continue
+		}
+		ast.Inspect(f, func(n ast.Node) bool {
+			if n == nil || pos < n.Pos() || pos > n.End() {
+				return n == nil
+			}
+			switch x := n.(type) {
+			case *ast.AssignStmt:
+				for i, rhs := range x.Rhs {
+					if pos >= rhs.Pos() && pos <= rhs.End() && i < len(x.Lhs) {
+						if id, ok := x.Lhs[i].(*ast.Ident); ok {
+							name = id.Name
+						}
+					}
+				}
+			case *ast.ValueSpec:
+				for i, rhs := range x.Values {
+					if pos >= rhs.Pos() && pos <= rhs.End() && i < len(x.Names) {
+						name = x.Names[i].Name
+					}
+				}
+			}
+			return true
+		})
+	}
+	return name
 }
